@@ -90,6 +90,7 @@ def project(result, part):
     """Per-partition model trace (constructor names of Producer.ev) + observed verdict list."""
     tr = []
     verdicts = []
+    empty = set()
     for e in result["trace"]:
         k = e["ev"]
         if k.startswith("c_"):
@@ -98,7 +99,14 @@ def project(result, part):
             if k == "c_accept":
                 tr.append(("Accept", e["rid"], bool(e["newb"])))
             elif k == "c_drain":
+                if e.get("n") == 0:
+                    # an EMPTY batch (every append() into it was rejected by the record builder): it is popped and
+                    # resolved on the spot, never sent - not a step of the batch life-cycle
+                    empty.add(e["bid"])
+                    continue
                 tr.append(("Drain",))
+            elif k in ("c_ok", "c_fatal") and e.get("bid") in empty:
+                empty.discard(e["bid"])
             elif k == "c_ok":
                 tr.append(("ReplyOk",))
             elif k == "c_retry":
